@@ -196,6 +196,19 @@ func (f *FakeS3) Expire(n int, pick func(k int) int) []string {
 	return gone
 }
 
+// PutKeys returns the keys of the successful PUT requests (since the last Reset) that contain part.
+func (f *FakeS3) PutKeys(part string) []string {
+	f.mu.Lock()
+	defer f.mu.Unlock()
+	var ks []string
+	for _, r := range f.Log {
+		if r.Verb == "PUT" && r.Status == 200 && r.Fault == "" && strings.Contains(r.Key, part) {
+			ks = append(ks, r.Key)
+		}
+	}
+	return ks
+}
+
 func (f *FakeS3) Reset() {
 	f.mu.Lock()
 	f.Log = nil
